@@ -23,3 +23,4 @@ import AriesVerif.C13.Textbook
 #print axioms Lin.linearizable_textbook
 #print axioms Interleave.open_store_one_object_per_name
 #print axioms Interleave.open_store_unlocked_two_objects
+#print axioms C13.open_store_lookup_and_register_in_one_section
